@@ -1,5 +1,6 @@
 //! One module per family of properties; `run` dispatches a check, `replay` re-executes a saved case.
 
+pub mod conc;
 pub mod diff;
 pub mod http;
 pub mod iso;
@@ -10,11 +11,12 @@ pub mod urgency;
 use crate::engine::{CheckResult, Fail, Report, Stats, Tier};
 use serde_json::Value;
 
-pub const ALL: &[&str] = &["C01", "C02", "C06", "C07", "C08", "C09", "C10", "C11", "C12", "C13", "C14", "C15", "C16", "C18", "C20"];
+pub const ALL: &[&str] = &["C01", "C02", "C03", "C06", "C07", "C08", "C09", "C10", "C11", "C12", "C13", "C14", "C15", "C16", "C18", "C20"];
 
 pub fn run(id: &str, tier: Tier, seed: u64) -> Option<Report> {
     match id {
         "C01" | "C02" | "C07" | "C08" | "C10" | "C11" | "C18" => Some(seq::run(id, tier, seed)),
+        "C03" => Some(conc::run(tier, seed)),
         "C06" => Some(payload::run(tier, seed)),
         "C09" => Some(iso::run(tier, seed)),
         "C12" => Some(urgency::run(tier, seed)),
@@ -27,6 +29,7 @@ pub fn run(id: &str, tier: Tier, seed: u64) -> Option<Report> {
 fn replay_case(prop: &str, kind: &str, case: &Value, st: &mut Stats) -> Option<CheckResult> {
     Some(match prop {
         "C01" | "C02" | "C07" | "C08" | "C10" | "C11" | "C18" => seq::replay(prop, kind, case, st),
+        "C03" => conc::replay(kind, case, st),
         "C06" => payload::replay(kind, case, st),
         "C09" => iso::replay(kind, case, st),
         "C12" => urgency::replay(kind, case, st),
